@@ -581,6 +581,38 @@ func TestVerif_C03(t *testing.T) {
 			})
 		}
 		for _, a := range addrColliders {
+			// the same address as the only account_include of a transaction stream over the whole epoch (the address
+			// index accelerates it): nothing may be streamed that does not mention the address
+			guard("gRPC StreamTransactions", func() {
+				first, last := eA.Truth.Blocks[0].Slot, eA.Truth.Blocks[len(eA.Truth.Blocks)-1].Slot
+				st := &vkTxStream{vkStreamBase: vkBase0()}
+				serr := multi.StreamTransactions(&old_faithful_grpc.StreamTransactionsRequest{StartSlot: first, EndSlot: &last,
+					Filter: &old_faithful_grpc.StreamTransactionsFilter{AccountInclude: []string{a.String()}}}, st)
+				R.Case(true, "")
+				foreign := 0
+				for _, r := range st.Got {
+					if r.Transaction == nil || len(r.Transaction.Transaction) == 0 {
+						continue
+					}
+					sg, _ := readFirstSig(r.Transaction.Transaction)
+					mentions := false
+					for _, tx := range eA.Truth.Txs {
+						if tx.Sig == sg {
+							for _, k := range tx.Accounts {
+								if k == a {
+									mentions = true
+								}
+							}
+						}
+					}
+					if !mentions {
+						foreign++
+					}
+				}
+				if foreign > 0 {
+					viol("StreamTransactions|colliding-address", fmt.Sprintf("StreamTransactions(account_include=[%s]) over epoch A: %d streamed transactions do not mention the address (it has no history there; it collides with a stored address in the address index); err=%v", a, foreign, serr), map[string]interface{}{"address": a.String()})
+				}
+			})
 			_, resp, pan := vkRPC(h, fmt.Sprintf(`{"jsonrpc":"2.0","id":1,"method":"getSignaturesForAddress","params":[%q,{"limit":10}]}`, a.String()))
 			R.Case(true, "")
 			if pan != nil {
